@@ -366,7 +366,7 @@ func checkC09(p *core.Program, r *core.Report) {
 			r.Check(detail == "", "R2", key, p.Pos(acc.Pos()), "under mutex.Lock() with the lock still held (in this function, or at every call of this unexported helper)", "flow cache accessed outside the critical section: "+detail)
 		}
 	}
-	r.Require("flow_cache_accesses", nAcc, 5)
+	r.Require("flow_cache_accesses", nAcc, 3)
 
 	// ------------------------------------------------------------------ R3 lazy values in globals
 	lazyTypes := map[string]bool{"excellent/types.XObject": true, "excellent/types.XArray": true}
@@ -906,7 +906,7 @@ func c09R5(p *core.Program, r *core.Report) {
 		}
 	}
 	r.Count("json_decode_sites", n)
-	r.Require("json_decode_sites", n, 60)
+	r.Require("json_decode_sites", n, 30)
 }
 
 // ---------------------------------------------------------------------------------------------- R6
